@@ -263,3 +263,70 @@ impl Dictionary {
         Ok(self)
     }
 }
+
+/// Read-only verification hooks (compiled only with `--cfg vibrato_verif`).
+#[cfg(vibrato_verif)]
+impl Dictionary {
+    /// Returns the connection cost between `right_id` and `left_id`.
+    pub fn verif_conn_cost(&self, right_id: u16, left_id: u16) -> i32 {
+        use crate::dictionary::connector::ConnectorCost;
+        match self.connector() {
+            ConnectorWrapper::Matrix(c) => c.cost(right_id, left_id),
+            ConnectorWrapper::Raw(c) => c.cost(right_id, left_id),
+            ConnectorWrapper::Dual(c) => c.cost(right_id, left_id),
+        }
+    }
+
+    /// Returns the number of left ids of the connector.
+    pub fn verif_num_left(&self) -> usize {
+        self.connector().num_left()
+    }
+
+    /// Returns the number of right ids of the connector.
+    pub fn verif_num_right(&self) -> usize {
+        self.connector().num_right()
+    }
+
+    /// Returns the kind of the connector.
+    pub fn verif_connector_kind(&self) -> &'static str {
+        match self.connector() {
+            ConnectorWrapper::Matrix(_) => "matrix",
+            ConnectorWrapper::Raw(_) => "raw",
+            ConnectorWrapper::Dual(_) => "dual",
+        }
+    }
+
+    /// Returns `(has_user_lexicon, has_mapper)`.
+    pub fn verif_state(&self) -> (bool, bool) {
+        (self.data.user_lexicon.is_some(), self.data.mapper.is_some())
+    }
+
+    /// Returns `(cate_idset, base_id, invoke, group, length)` of a character.
+    pub fn verif_char_info(&self, c: char) -> (u32, u32, bool, bool, u16) {
+        let ci = self.char_prop().char_info(c);
+        (
+            ci.cate_idset(),
+            ci.base_id(),
+            ci.invoke(),
+            ci.group(),
+            ci.length(),
+        )
+    }
+
+    /// Returns the number of unknown-word entries of a category.
+    pub fn verif_unk_rows(&self, cate_id: u32) -> usize {
+        self.unk_handler().verif_num_entries(cate_id)
+    }
+
+    /// Returns the category names indexed by category id.
+    pub fn verif_category_names(&self) -> Vec<String> {
+        self.char_prop().verif_categories().to_vec()
+    }
+}
+
+/// Sets the seed that decides the template trial order of the dual-connector builder on the
+/// current thread (verification hook; see `DualConnector::remove_feature_templates_greedy`).
+#[cfg(vibrato_verif)]
+pub fn verif_set_dual_order_seed(seed: u64) {
+    crate::dictionary::connector::VERIF_ORDER_SEED.with(|s| s.set(seed));
+}
